@@ -610,6 +610,9 @@ def gen_program(rng, size=1.0):
             args = [num(rng.randint(1, 9)) for _ in range(c.init_arity())]
             items.append(("let", name, call(var(c.name), *args)))
             objs.append((name, c))
+    for (o, c) in objs:
+        if "peer" in c.fields() and rng.random() < 0.85:
+            items.append(("setf", var(o), "peer", var(rng.choice(objs)[0]), False))
     nstm = int(rng.randint(14, 34) * size)
     for _ in range(nstm):
         items += gen_main_stmt(rng, classes, objs, meta)
@@ -699,6 +702,11 @@ def gen_class_body(rng, c, classes, meta):
                     c.own_fields.append(f)
                 if f not in numeric:
                     numeric.append(f)
+        if rng.random() < 0.4 and "peer" not in anc_fields:
+            # an object-valued field: main stores another instance there, methods read through it (`@peer.f`)
+            body.append(("setf", SELF, "peer", ("nil",), rng.random() < 0.5))
+            if "peer" not in c.own_fields:
+                c.own_fields.append("peer")
         if po is not None and not called_super and rng.random() < 0.3:
             # super.init late: the ancestor's initialiser overwrites what was set above
             args = [rng.choice([var(p) for p in params] + [num(rng.randint(1, 9))]) for _ in range(len(po.init[0]))]
@@ -748,6 +756,12 @@ def gen_class_body(rng, c, classes, meta):
                     body.append(("let", "s", call(var("h"))))
                 terms.append(var("s"))
                 meta["super_calls"] += 1
+        if "peer" in allf and rng.random() < 0.6:
+            # a chained read through an object-valued field of self, with and without the `@` shorthand:
+            # the property is looked up BY NAME on the peer's class, whatever fields the enclosing class has
+            f = rng.choice(NUMF[:4])
+            body.append(("try", [("print", get(get(SELF, "peer", rng.random() < 0.7), f))], []))
+            meta["foreign_field_reads"] += 1
         shadowable = [x for x in allf if x in M_ARITY and x != m]
         if shadowable and rng.random() < 0.5:
             # install a self-capturing lambda into a field that shadows a method
